@@ -128,6 +128,15 @@ pub fn run(ctx: &Ctx) -> Report {
   }
   // table: binary vs model vs book
   let out = Cmd::new(&ctx.imdl, &["torrent", "piece-length"]).run();
+  // the table is the table: under its other name, and whatever the colour setting
+  for alt in [vec!["torrent", "piece-size"], vec!["--color", "never", "torrent", "piece-length"], vec!["--quiet", "torrent", "piece-length"]] {
+    let o = Cmd::new(&ctx.imdl, &alt).run();
+    report.case(Some(crate::report::fnv_str(&alt.join(" "))));
+    report.hit("table:other-spelling");
+    if !o.ok() || o.stdout != out.stdout {
+      report.fail("property", "piece-length-table", json!({"cmd": alt}), format!("`imdl {}` does not print the table `imdl torrent piece-length` prints (exit {:?})", alt.join(" "), o.code));
+    }
+  }
   let bin_rows = parse_table(&out.stdout_s());
   let ans = model.ask("C15 table");
   let model_rows: Vec<(u64, u64)> = ans
@@ -215,16 +224,29 @@ pub fn run(ctx: &Ctx) -> Report {
     (vec![("a.bin", 2 * mib)], vec![("sub/Desktop.ini", 3 * mib), (".git/objects/pack", 9 * mib)], None),
     (vec![("keep/a.bin", 3 * mib)], vec![("drop/b.bin", 30 * mib)], Some("keep/*")),
     (vec![("a.bin", 4 * mib)], vec![], None),
+    // two names for the same five megabytes (a hard link): ten megabytes of content
+    (vec![("a.bin", 5 * mib), ("HARDLINK:a.bin:b.bin", 5 * mib)], vec![], None),
+    // exactly on a step, split over several files and directories
+    (vec![("a.bin", mib), ("b/c.bin", mib), ("b/d/e.bin", 2 * mib), ("f.bin", 4 * mib)], vec![], None),
   ]
   .into_iter()
   .enumerate()
   {
     let sb = Sandbox::new(&ctx.work, "c15d");
     for (rel, size) in included.iter().chain(excluded.iter()) {
-      sparse(&sb, &format!("content/{rel}"), *size);
+      if let Some(spec) = rel.strip_prefix("HARDLINK:") {
+        let (from, to) = spec.split_once(':').unwrap();
+        let _ = std::fs::hard_link(sb.path(&format!("content/{from}")), sb.path(&format!("content/{to}")));
+      } else {
+        sparse(&sb, &format!("content/{rel}"), *size);
+      }
     }
     let _ = std::os::unix::fs::symlink(sb.path("content/a.bin"), sb.path("content/link-not-followed"));
     let mut args = vec!["torrent", "create", "--input", "content", "--output", "o.torrent"];
+    if i % 2 == 1 {
+      // allowing a lint is not asking for what it forbids
+      args.extend(["--allow", "small-piece-length", "--allow", "uneven-piece-length"]);
+    }
     if let Some(g) = glob {
       args.push("--glob");
       args.push(g);
